@@ -26,8 +26,9 @@ VARIABLES l, cnt, okrf, okkeys, written, closed, open, lateStart,
           sopen,    \* [search call id -> ids that may have been live at some instant of the search so far]
           ixsure,   \* index names that surely exist: a VCreate returned nil and no VDeleteIndex of that name has started since
           copen,    \* [open VCreate call id -> [ix: its name, free: the name may have been free at some instant of the call so far]]
-          dopen     \* [open VDeleteIndex call id -> its name]
-tvars == <<l, cnt, okrf, okkeys, written, closed, open, lateStart, vlive, sopen, ixsure, copen, dopen>>
+          dopen,    \* [open VDeleteIndex call id -> its name]
+          rwo       \* [open RewriteAOF call id -> another RewriteAOF call was running at some instant of this one]
+tvars == <<l, cnt, okrf, okkeys, written, closed, open, lateStart, vlive, sopen, ixsure, copen, dopen, rwo>>
 
 \* C06 under concurrency: a search returns only vectors that were live at some instant between its call and its
 \* return -- never one whose delete had completed before the search started (ids are added/deleted by their owner
@@ -45,7 +46,7 @@ Consume == l' = l + 1
 TraceInit == /\ l = 1 /\ cnt = [i \in Items |-> 0] /\ okrf = [i \in Items |-> 0] /\ okkeys = [i \in Items |-> {}]
              /\ written = [k \in KVKeys |-> {"absent"}] /\ closed = FALSE /\ open = {} /\ lateStart = {}
              /\ vlive = Items \cup {"EVOLVED"} /\ sopen = <<>>
-             /\ ixsure = {} /\ copen = <<>> /\ dopen = <<>>
+             /\ ixsure = {} /\ copen = <<>> /\ dopen = <<>> /\ rwo = <<>>
 
 T_Call == /\ IsEv("call") /\ Consume
           /\ open' = open \cup {Ev.id}
@@ -63,17 +64,23 @@ T_Call == /\ IsEv("call") /\ Consume
                        ELSE copen
           /\ dopen' = IF Ev.op = "VDeleteIndex" THEN [x \in DOMAIN dopen \cup {Ev.id} |-> IF x = Ev.id THEN Ev.ix ELSE dopen[x]] ELSE dopen
           /\ ixsure' = IF Ev.op = "VDeleteIndex" THEN ixsure \ {Ev.ix} ELSE ixsure
+          /\ rwo' = IF Ev.op = "RewriteAOF"
+                     THEN [x \in DOMAIN rwo \cup {Ev.id} |-> IF x = Ev.id THEN DOMAIN rwo # {} ELSE TRUE]
+                     ELSE rwo
           /\ UNCHANGED <<cnt, okrf, okkeys, closed>>
 
 T_RfLin == /\ IsEv("rf.lin") /\ Consume
            /\ Ev.n = cnt[Ev.item] + 1                    \* exactly the next count: no lost update, no repeat
            /\ cnt' = [cnt EXCEPT ![Ev.item] = Ev.n]
-           /\ UNCHANGED <<okrf, okkeys, written, closed, open, lateStart, vlive, sopen, ixsure, copen, dopen>>
+           /\ UNCHANGED <<okrf, okkeys, written, closed, open, lateStart, vlive, sopen, ixsure, copen, dopen, rwo>>
 
 T_Ret == /\ IsEv("ret") /\ Consume
          /\ Ev.id \in open
          /\ open' = open \ {Ev.id}
-         /\ ((Ev.id \in lateStart /\ Ev.op \in Mutating) => ~Ev.ok)   \* mutating calls after Close fail cleanly
+         \* mutating calls after Close fail cleanly. (RewriteAOF returns nil without doing anything when another compaction
+         \* is running -- "already in progress" -- also after Close: that is not a success of the late call.)
+         /\ ((Ev.id \in lateStart /\ Ev.op \in Mutating) => (~Ev.ok \/ (Ev.op = "RewriteAOF" /\ rwo[Ev.id])))
+         /\ rwo' = IF Ev.op = "RewriteAOF" THEN [x \in DOMAIN rwo \ {Ev.id} |-> rwo[x]] ELSE rwo
          /\ (Ev.op = "KVGet" => Ev.v \in written[Ev.k])  \* a read never sees a value that was not written
          /\ okrf' = IF Ev.op = "VReinforce" /\ Ev.ok THEN [okrf EXCEPT ![Ev.item] = @ + 1] ELSE okrf
          /\ okkeys' = IF Ev.op = "VSetMetadata" /\ Ev.ok THEN [okkeys EXCEPT ![Ev.item] = @ \cup {Ev.k}] ELSE okkeys
@@ -97,19 +104,19 @@ T_Ret == /\ IsEv("ret") /\ Consume
          /\ UNCHANGED <<cnt, written, closed, lateStart>>
 
 T_Closed == /\ IsEv("close.done") /\ Consume /\ closed' = TRUE
-            /\ UNCHANGED <<cnt, okrf, okkeys, written, open, lateStart, vlive, sopen, ixsure, copen, dopen>>
+            /\ UNCHANGED <<cnt, okrf, okkeys, written, open, lateStart, vlive, sopen, ixsure, copen, dopen, rwo>>
 
 \* read after a VLink and a VUnlink of the same edge, issued at the same time, have both returned: the forward list of
 \* the source and the reverse list of the target agree about the edge (no half edge), whichever call took effect last
 T_EdgeView == /\ IsEv("edgeview") /\ Consume
               /\ Ev.fwd = Ev.rev
-              /\ UNCHANGED <<cnt, okrf, okkeys, written, closed, open, lateStart, vlive, sopen, ixsure, copen, dopen>>
+              /\ UNCHANGED <<cnt, okrf, okkeys, written, closed, open, lateStart, vlive, sopen, ixsure, copen, dopen, rwo>>
 
 T_Final == /\ IsEv("final") /\ Consume
            /\ open = {}                                   \* every call returned
            /\ Ev.count = okrf[Ev.item]                    \* every acknowledged reinforcement is counted, none twice
            /\ okkeys[Ev.item] \subseteq {Ev.keys[i] : i \in 1..Len(Ev.keys)}   \* every merged key kept
-           /\ UNCHANGED <<cnt, okrf, okkeys, written, closed, open, lateStart, vlive, sopen, ixsure, copen, dopen>>
+           /\ UNCHANGED <<cnt, okrf, okkeys, written, closed, open, lateStart, vlive, sopen, ixsure, copen, dopen, rwo>>
 
 TraceNext == T_Call \/ T_RfLin \/ T_Ret \/ T_Closed \/ T_Final \/ T_EdgeView
 TraceSpec == TraceInit /\ [][TraceNext]_tvars
